@@ -348,7 +348,7 @@ func TestC03(t *testing.T) {
 	rec.Describe("case = a URI universe: root + 0-3 Loader documents, each a tree (depth<=2) of nodes of which ~40% are embedded resources ($id absolute, relative, ../, ./, /abs-path, urn:), anchors foo/bar/A1 unique per resource but shared across resources, document-root $id equal to / different from (alias) / relative to the retrieval URI; every node holds 0-2 references whose TARGET is chosen first (any node of any document: chains, diamonds, cycles through `properties`) and whose SPELLING second ('#', '#/ptr', '#anchor', rel, rel#anchor, rel#/ptr, absolute, /abs-path, //network-path, ./ and zz/../ dot segments, canonical-id vs retrieval-URI alias); BaseURI empty (25%) or absolute; Loader nil (20%); loader faults on a random subset (20%); a planted dangling reference (20%). Probes: 2-5 routes of 1-4 hops x (intended marker + other markers). Oracle: reference evaluator verdicts; Resolve error iff the model finds a dangling/unloadable reference; loader-log invariants. Non-trivial: the route uses a spelling other than a same-resource '#/pointer' (base-URI inheritance, anchor scoping, a loader or an alias is involved), and every expect-error case. Distinct = distinct (universe, instance).",
 		"restrictions (a)-(g) of DESIGN.md section 3.5: no cross-document reference to a resource embedded in another document; loaded documents served at retrieval URI and canonical $id; base-less roots use only fragment-only/absolute references; no duplicate anchors; no pointer across a resource boundary; nothing relative under urn:; single draft",
 		"eager versus lazy loading of documents named only by unreachable subschemas is not asserted")
-	rapid.Check(t, propC03(rec))
+	rapid.Check(t, watched("C03", propC03(rec)))
 }
 
 // propC03 is the property body, shared by TestC03 (rapid) and FuzzC03 (native fuzzing over
@@ -391,6 +391,7 @@ func propC03(rec *ev.Recorder) func(t *rapid.T) {
 		rec.ClassIf(len(u.Alias) > 0, "config:canonical-id-alias")
 		rec.ClassIf(u.BaseURI == "http://p.test" || u.BaseURI == "http://p.test/" || u.BaseURI == "http://h.test/dir/", "config:base-uri-without-file-name")
 		rec.ClassIf(strings.Contains(u.Root.JSON(), `.json#"`) || strings.Contains(u.Root.JSON(), `#","`), "config:id-with-empty-fragment")
+		ev.SetCurrent("C03", c)
 		fl := checkC03(c, rec)
 		if isHarnessFailure(fl) {
 			rec.Inconclusive("generator-or-model-error: " + fl.Msg)
